@@ -216,7 +216,10 @@ def run(ctx):
             if not g[p]:
                 r.bad(key, "Worker::generate_work never consults the %s predicate" % p, fn=par)
                 continue
-            esc = C.all_paths_pass(par, [0], g[p], sends)
+            # (decided by constant propagation: an error return of a helper that builds the entry does not continue into the
+            # caller's `Ok(Some(entry))` arm)
+            from ..flow import always_after as _aa
+            esc = [] if _aa(par, g[p], sends) else C.all_paths_pass(par, [0], g[p], sends)
             if esc:
                 r.bad(key, "parallel walker: send at %s reachable without consulting the %s predicate"
                       % (par.blocks[esc[0]]["term"]["loc"], p), fn=par, loc=par.blocks[esc[0]]["term"]["loc"],
